@@ -12,8 +12,7 @@ def run(ctx):
     ctx.mc("MC_Geometry", "MC_Geometry" if ctx.quick else "MC_Geometry_thorough", workers=8, timeout=1800,
            note="substitution law In(PE(e,b),Q) = In(e,Q+b) and FreeVars(PE(e,b)) = FreeVars(e) minus dom b over all depth<=1 parameter-dependent expressions and bindings")
     if ctx.replay:
-        scen = [json.load(open(ctx.replay))["trace"]["scenario"]]
-        scen[0].pop("tid", None)
+        scen = ctx.replay_scenarios()
     else:
         scen = ctx.gen("Gen_Attr", "Gen_Attr_all", timeout=900)
         scen = [dict(s, dens=[], norm=False) for s in scen if s.get("bind")]
